@@ -6,6 +6,7 @@ import UnytModel.DriverBase
 import UnytModel.NumLitC02
 import UnytModel.Generated.C02NumPipeline
 import UnytModel.Parse
+import UnytModel.ExprTreeC02
 
 namespace Unyt
 open NumLit
@@ -35,6 +36,18 @@ def opsC02 : Handler := fun st fields =>
       match UnitV.ofExpr st.pre (st.luts[0]!) ⟨ratToFloat e.coeff, e.factors⟩ with
       | .ok (u, _) => some (st, unitOut u ++ s!"\t{ratStr e.coeff}")
       | .error err => some (st, s!"err\t{err.str}")
+  -- a nested expression tree: Unit(build tree) against registry 0, and the constituents' reading `sem`
+  | ["c02.tree", w] =>
+    match CExpr.parse ratToFloat w with
+    | none => none
+    | some (e : CExpr Float) =>
+      let t := st.luts[0]!
+      let semOut := match CExpr.sem st.pre t e with
+        | some (v, d) => s!"{bitsStr v}\t{d.str}"
+        | none => "none\tnone"
+      match UnitV.ofExpr st.pre t e.build with
+      | .ok (u, _) => some (st, unitOut u ++ "\t" ++ semOut)
+      | .error err => some (st, s!"err\t{err.str}\t{semOut}")
   | _ => none
 
 end Unyt
